@@ -7,6 +7,11 @@ ENGINES = [
 NOT_APPLICABLE = {}
 _NOTE = 'Trusted base: compiler + sanitizer runtimes, the engine in harness/engine.h, and the independent reference oracle named in the technique (self-tested at every start). Verdict is "held on everything explored", not absence.'
 TEXT = {
+ 'C13': dict(engine='pbt', design_ref='DESIGN.md 5/C13',
+   technique='property-based testing with boundary-placed texts against an independent UTF encoder; truncation enumeration; bounded-progress counter for hangs',
+   level_text='~5*10^5 generated streams per quick run: texts sized and composed so that 2/3/4-byte and surrogate-pair characters straddle the reader chunk boundary, in 5 encodings with/without BOM, read through CEncodedStreamReader for three target widths and three chunk sizes from ordinary and short-read streambufs; cut at arbitrary bytes under both policies; written through CEncodedStreamWriter; detected by DetectEncoding; and foreign-encoded CSV/JSON/XML documents loaded through the archive stream entry points.',
+   level_note=_NOTE),
+
  'C06': dict(engine='sweep+pbt', design_ref='DESIGN.md 5/C06',
    technique='exhaustive sweep + property-based testing with an independent strict MessagePack decoder and an independently derived expected tree',
    level_text='Every 8/16-bit integer of every integer type and every format threshold is written and decoded by an independent spec decoder; ~4*10^4 generated typed values per quick run (87 model types) must decode to exactly the independently derived data model (member order, counts, bin for bytes, Timestamp with 0 <= ns < 10^9), use the most compact format at every node, and be byte-identical from memory and stream.',
